@@ -31,6 +31,7 @@ func init() {
 		"(empty, NUL, high bytes, '=', '&', long) x transports {tcp, unix, http-connect, websocket, in-memory} x 1..32 concurrent callers on shared and separate clients; "+
 		"the handler records the arguments and metadata it was given, the caller checks its reply and response metadata; on the tcp transport a recording proxy captures "+
 		"both byte streams and every request / success-response header is compared with the Lean pipeline model (client.send flagging, server response skeleton and flagging); "+
+		"plus 2..16 concurrent callers sharing ONE *share.Context: the response metadata of every call must be in the shared map once all have returned; "+
 		"non-trivial = payload above the compression threshold on either leg, or non-empty metadata; distinct = distinct case key",
 		runC09)
 }
@@ -148,6 +149,16 @@ func asciiPattern(seed string, n int) string {
 }
 
 type EchoSvc struct{ r *c09Rig }
+
+// Tag: response metadata that depends on the ARGUMENT only (callers that share one context share
+// its request metadata)
+func (s *EchoSvc) Tag(ctx context.Context, a *int, rp *int) error {
+	if rm, ok := ctx.Value(share.ResMetaDataKey).(map[string]string); ok {
+		rm[fmt.Sprintf("tag:%d", *a)] = fmt.Sprintf("v%d\x00\xff", *a)
+	}
+	*rp = *a * 3
+	return nil
+}
 
 func (s *EchoSvc) Bytes(ctx context.Context, a *[]byte, rp *[]byte) error {
 	cp := append([]byte(nil), (*a)...)
@@ -742,6 +753,52 @@ func runC09(o *Out, r *rand.Rand) {
 		o.Count(fmt.Sprintf("concurrent.callers=%d", conc))
 		if atomic.LoadInt32(&failed) != 0 {
 			return
+		}
+	}
+	// --- 3. concurrent callers sharing ONE context (a *share.Context: the client serialises its
+	// writes to the context's response-metadata map): what the server sent for each call must be
+	// there once all calls have returned – one call's completion must not undo another's
+	for round := 0; round < rounds; round++ {
+		sv := servers[r.Intn(len(servers))]
+		ct := []protocol.CompressType{protocol.None, protocol.Gzip}[r.Intn(2)]
+		cl, err := connect(sv.network, sv.addr, 1, ct) // c09Codecs[1] = JSON
+		if err != nil {
+			o.Violate("c09.connect", fmt.Sprintf("cannot connect over %s: %v", sv.network, err), map[string]any{"transport": sv.network})
+			return
+		}
+		conc := []int{2, 4, 8, 16}[r.Intn(4)]
+		resMeta := map[string]string{}
+		base := context.WithValue(context.Background(), share.ReqMetaDataKey, map[string]string{"shared": "1"})
+		base = context.WithValue(base, share.ResMetaDataKey, resMeta)
+		sctx := share.NewContext(base)
+		var wg sync.WaitGroup
+		errs := make([]error, conc)
+		replies := make([]int, conc)
+		tagBase := round * 100
+		for g := 0; g < conc; g++ {
+			wg.Add(1)
+			go func(g int) {
+				defer wg.Done()
+				a := tagBase + g
+				errs[g] = cl.Call(sctx, "Echo", "Tag", &a, &replies[g])
+			}(g)
+		}
+		wg.Wait()
+		cl.Close()
+		o.Eval(fmt.Sprintf("c09 shared-context %s conc=%d ct=%d", sv.network, conc, ct), true)
+		o.Count("shared-context.rounds")
+		rp := map[string]any{"transport": sv.network, "concurrent_callers_sharing_one_context": conc, "compress": int(ct)}
+		for g := 0; g < conc; g++ {
+			a := tagBase + g
+			if errs[g] != nil || replies[g] != a*3 {
+				o.Violate("c09.shared-context.call", fmt.Sprintf("caller %d: err=%v reply=%d (want %d)", g, errs[g], replies[g], a*3), rp)
+				return
+			}
+			if got, want := resMeta[fmt.Sprintf("tag:%d", a)], fmt.Sprintf("v%d\x00\xff", a); got != want {
+				rp["response_metadata_now"] = metaStr(nonReserved(resMeta))
+				o.Violate("c09.shared-context.response-metadata", fmt.Sprintf("the response metadata the server sent for caller %d's call (tag:%d) is not in the callers' shared response-metadata map after all calls returned (got %q)", g, a, got), rp)
+				return
+			}
 		}
 	}
 	if n := atomic.LoadInt32(&rig.dup); n > 0 {
